@@ -217,8 +217,67 @@ pub fn exh_count(max_len: u32) -> u64 {
 pub fn rand_case(seed: u64, i: u64) -> (Vec<u8>, Vec<u8>) {
     let mut r = Rng(mix(seed ^ 0xc14, i));
     let reference: Vec<u8> = (0..r.below(6)).map(|_| r.next() as u8).collect();
-    let mode = r.below(10);
-    if mode < 4 {
+    let mode = r.below(12);
+    if mode >= 10 {
+        // grammar-aware: a sequence of bitfield-rle tokens whose varint headers have boundary values and are
+        // encoded minimally or over-long (redundant continuation bytes, up to 11 bytes, stray high bits in
+        // the last byte), literal tokens followed by (too few / enough / too many) bytes
+        let mut data = Vec::new();
+        let ntok = 1 + r.below(4);
+        for _ in 0..ntok {
+            let len: u64 = match r.below(8) {
+                0 => r.below(4),
+                1 => r.below(300),
+                2 => (1u64 << (7 * (1 + r.below(9)))).wrapping_add(r.below(3)).wrapping_sub(1),
+                3 => u64::MAX >> r.below(8),
+                4 => 1u64 << (56 + r.below(8)),
+                _ => 1 + r.below(40),
+            };
+            let run = r.chance(50);
+            let header = if run { (len << 2) | (r.below(2) << 1) | 1 } else { len << 1 };
+            // minimal LEB128
+            let mut v = header;
+            let mut bytes = Vec::new();
+            loop {
+                let b = (v & 0x7f) as u8;
+                v >>= 7;
+                if v == 0 {
+                    bytes.push(b);
+                    break;
+                }
+                bytes.push(b | 0x80);
+            }
+            if r.chance(45) {
+                let target = (bytes.len() as u64 + 1 + r.below(4)).min(11).max(if r.chance(50) { 10 } else { 0 }) as usize;
+                if target > bytes.len() {
+                    let l = bytes.len();
+                    bytes[l - 1] |= 0x80;
+                    while bytes.len() + 1 < target {
+                        bytes.push(0x80);
+                    }
+                    bytes.push(match r.below(4) {
+                        0 => 0,
+                        1 => 1,
+                        2 => 2 + r.below(126) as u8,
+                        _ => 0x7f,
+                    });
+                }
+            }
+            data.extend_from_slice(&bytes);
+            if !run {
+                let n = match r.below(4) {
+                    0 => len.min(64),
+                    1 => len.min(64).saturating_sub(1),
+                    2 => (len.min(64)) + 1,
+                    _ => r.below(8),
+                };
+                for _ in 0..n {
+                    data.push(if r.chance(40) { 0 } else { r.next() as u8 });
+                }
+            }
+        }
+        (reference, data)
+    } else if mode < 4 {
         // raw bytes biased to varint continuation / run headers
         let n = 1 + r.below(24) as usize;
         let data = (0..n)
@@ -677,7 +736,7 @@ pub fn run(ctx: &Ctx) -> PropReport {
     rep.part(|| decode_sweep(
         ctx,
         "decode_random",
-        "indexed random generation in child processes: 40% raw strings (1..=24 bytes) biased to varint continuation bytes and run headers, 60% mutations (bit flip, truncate, insert, 0xFF, +2) of valid encodings of near-identical inputs; same totality oracle; distinctness is counted exactly over the first 4,000,000 generated inputs only (conservative)",
+        "indexed random generation in child processes: 1/3 raw strings (1..=24 bytes) biased to varint continuation bytes and run headers, 1/2 mutations (bit flip, truncate, insert, 0xFF, +2) of valid encodings of near-identical inputs, 1/6 grammar-aware token sequences (run / literal headers with boundary lengths 2^7k-1..2^7k+1, up to 2^64-1, encoded minimally or as over-long varints of up to 11 bytes with stray bits in the last byte; literals followed by too few / enough / too many bytes); same totality oracle; distinctness is counted exactly over the first 4,000,000 generated inputs only (conservative)",
         "rand",
         ctx.seed,
         ctx.tier.pick(20_000_000, 400_000_000),
